@@ -172,12 +172,13 @@ func (t *Term) S64() int64 { // sign-extended from sort width
 // TermStore hash-conses terms for one path.
 type TermStore struct {
 	tab  map[string]*Term
+	convMemo map[int]bool
 	next int
 	// ordered list of declared symbols
 	vars []*Term
 }
 
-func NewTermStore() *TermStore { return &TermStore{tab: map[string]*Term{}} }
+func NewTermStore() *TermStore { return &TermStore{tab: map[string]*Term{}, convMemo: map[int]bool{}} }
 
 func (ts *TermStore) intern(t *Term) *Term {
 	var sb strings.Builder
@@ -300,6 +301,10 @@ func (ts *TermStore) Ite(c, a, b *Term) *Term {
 			b = ts.dyOfConst(b)
 		} else if b.sort == SDy && a.sort == SF64 && a.IsConst() {
 			a = ts.dyOfConst(a)
+		} else if a.sort == SDy && b.sort == SF64 && ts.dyConv(b) {
+			b = ts.toDy(b)
+		} else if b.sort == SDy && a.sort == SF64 && ts.dyConv(a) {
+			a = ts.toDy(a)
 		} else if a.sort == SDy && b.sort.IsBV() && b.IsConst() {
 			b = ts.miOf(b)
 		} else if b.sort == SDy && a.sort.IsBV() && a.IsConst() {
@@ -493,6 +498,9 @@ func (ts *TermStore) miBin(op Op, a, b *Term) *Term {
 	case OpBAnd:
 		if k > 0 && (k+1)&k == 0 { // mask 2^j - 1
 			return ts.miCanon(ts.miMod(a, k+1))
+		}
+		if k < 0 && (-k)&(-k-1) == 0 { // mask -2^j: clears the low j bits
+			return ts.Sub(a, ts.miCanon(ts.miMod(a, -k)))
 		}
 	}
 	unsup("operator %d with constant %d on a mathematical integer", op, k)
@@ -891,6 +899,44 @@ func (ts *TermStore) toDy(a *Term) *Term {
 
 func isDyPair(a, b *Term) bool { return a.sort == SDy || b.sort == SDy }
 
+// dyConv: an exact-IEEE term that is a selection/sum of finite constants only (e.g. ite(c,1.0,0.0)):
+// such values are handled in the dyadic representation, where sums are exact integers.
+func (ts *TermStore) dyConv(t *Term) bool {
+	if t.sort == SDy {
+		return true
+	}
+	if t.sort != SF64 {
+		return false
+	}
+	if t.IsConst() {
+		f := t.F64()
+		return f == f && !math.IsInf(f, 0)
+	}
+	if v, ok := ts.convMemo[t.id]; ok {
+		return v
+	}
+	r := false
+	switch t.op {
+	case OpIte:
+		r = ts.dyConv(t.args[1]) && ts.dyConv(t.args[2])
+	case OpFAdd, OpFSub:
+		r = ts.dyConv(t.args[0]) && ts.dyConv(t.args[1])
+	case OpFNeg:
+		r = ts.dyConv(t.args[0])
+	}
+	ts.convMemo[t.id] = r
+	return r
+}
+
+// promote: when two exact-IEEE operands are both constant selections (not both plain constants),
+// move the computation to the dyadic representation
+func (ts *TermStore) promote(a, b *Term) (*Term, *Term) {
+	if a.sort == SF64 && b.sort == SF64 && !(a.IsConst() && b.IsConst()) && ts.dyConv(a) && ts.dyConv(b) {
+		return ts.toDy(a), ts.toDy(b)
+	}
+	return a, b
+}
+
 func dyConstBig(a *Term) *big.Int { m, _ := new(big.Int).SetString(a.name, 10); return m }
 
 // value of a Dy constant as float64 (exact when within range)
@@ -906,6 +952,7 @@ func (ts *TermStore) FAdd(a, b *Term) *Term {
 	if a.IsConst() && b.IsConst() && a.sort == SF64 && b.sort == SF64 {
 		return ts.F64C(a.F64() + b.F64())
 	}
+	a, b = ts.promote(a, b)
 	if isDyPair(a, b) {
 		return ts.dyAddLin(ts.toDy(a), ts.toDy(b), false)
 	}
@@ -924,6 +971,7 @@ func (ts *TermStore) FSub(a, b *Term) *Term {
 	if a.IsConst() && b.IsConst() && a.sort == SF64 && b.sort == SF64 {
 		return ts.F64C(a.F64() - b.F64())
 	}
+	a, b = ts.promote(a, b)
 	if isDyPair(a, b) {
 		return ts.dyAddLin(ts.toDy(a), ts.toDy(b), true)
 	}
@@ -1000,6 +1048,7 @@ func (ts *TermStore) funary(op Op, a *Term) *Term {
 	return ts.intern(&Term{op: op, sort: SF64, args: []*Term{a}})
 }
 func (ts *TermStore) fcmp(op Op, a, b *Term) *Term {
+	a, b = ts.promote(a, b)
 	if a.IsConst() && b.IsConst() && a.sort == SF64 && b.sort == SF64 {
 		x, y := a.F64(), b.F64()
 		switch op {
